@@ -1981,3 +1981,72 @@ fn st_recv_connack_while_connected_v311() {
 fn st_recv_connack_while_connected_v5() {
     connack_while_connected(true)
 }
+
+// =================================================================== SUBACK / UNSUBACK: release announced exactly when an in-use id becomes free
+fn suback_like(kind: u8) {
+    // kind 0: v3.1.1 SUBACK, 1: v3.1.1 UNSUBACK, 2: v5.0 SUBACK, 3: v5.0 UNSUBACK
+    let v5 = kind >= 2;
+    let mut c = fam_client_connected(v311_or_v5(v5));
+    let u: u16 = kani::any();
+    let w: u16 = kani::any();
+    kani::assume(u != 0 && w != 0 && u != w);
+    // the application may have released the id by hand before the acknowledgement arrives
+    let still_used: bool = kani::any();
+    if still_used {
+        use_ids(&mut c, &[u, w]);
+    } else {
+        kani::assume(u > 1 && u < u16::MAX);
+        use_ids(&mut c, &[w]);
+    }
+    if kind == 0 || kind == 2 {
+        c.pid_suback.insert(u);
+    } else {
+        c.pid_unsuback.insert(u);
+    }
+    c.pid_puback.insert(w);
+    let r: u16 = kani::any();
+    let pre = tm_of(&c);
+    kani::cover!(r == u && !still_used, "acknowledgement for an id the application already released");
+    let ev = match kind {
+        0 => c.process_recv_v3_1_1_suback(pbh::verif_raw(0x90, &[(r >> 8) as u8, r as u8, 0])),
+        1 => c.process_recv_v3_1_1_unsuback(pbh::verif_raw(0xB0, &[(r >> 8) as u8, r as u8])),
+        2 => c.process_recv_v5_0_suback(pbh::verif_raw(0x90, &[(r >> 8) as u8, r as u8, 0, 0])),
+        _ => c.process_recv_v5_0_unsuback(pbh::verif_raw(0xB0, &[(r >> 8) as u8, r as u8, 0, 0])),
+    };
+    monitor(pre, &ev, &c);
+    if r == u {
+        assert!(count(&ev, is_recv) == 1 && count(&ev, is_any_err) == 0, "[C05] matching acknowledgement delivered");
+        assert!(count(&ev, is_any_released) == still_used as usize, "[C08] a release is announced exactly when an in-use identifier becomes free (never for a free one)");
+        assert!(!c.pid_man.is_used_id(u) && !c.pid_suback.contains(&u) && !c.pid_unsuback.contains(&u), "[C08] exchange completed");
+    } else {
+        assert!(count(&ev, is_recv) == 0 && count(&ev, is_any_err) == 1 && count(&ev, is_any_released) == 0, "[C08] an acknowledgement matching nothing releases nothing and is an error");
+        assert!(c.pid_man.is_used_id(u) == still_used, "[C08] nothing changed");
+    }
+    assert!(c.pid_man.is_used_id(w) && c.pid_puback.contains(&w), "[C08] other exchanges untouched");
+    core::mem::forget(ev);
+    core::mem::forget(c);
+}
+#[kani::proof]
+#[kani::unwind(2)]
+#[kani::stub(core::str::from_utf8, utf8_model)]
+fn st_recv_suback_v311() {
+    suback_like(0)
+}
+#[kani::proof]
+#[kani::unwind(2)]
+#[kani::stub(core::str::from_utf8, utf8_model)]
+fn st_recv_unsuback_v311() {
+    suback_like(1)
+}
+#[kani::proof]
+#[kani::unwind(2)]
+#[kani::stub(core::str::from_utf8, utf8_model)]
+fn st_recv_suback_v5() {
+    suback_like(2)
+}
+#[kani::proof]
+#[kani::unwind(2)]
+#[kani::stub(core::str::from_utf8, utf8_model)]
+fn st_recv_unsuback_v5() {
+    suback_like(3)
+}
